@@ -88,6 +88,10 @@ def run_one(args):
         if S.TINY_SEEN:
             res["notes"] = res["notes"] + ["float constants below 1e-40 treated as 0: %s" % sorted(set(S.TINY_SEEN))]
         res["atoms"] = len(S.A.names)
+        if S.PATH.unexplored:
+            # a branch on a symbolic value outside env.explore: only one side was executed, nothing was proved for the other
+            raise RuntimeError("branch on a symbolic value outside path exploration (%d), e.g. %s" % (
+                len(S.PATH.unexplored), repr(S.PATH.unexplored[0])[:200]))
         # native replay of refuted obligations against the real code
         for o in env.obls:
             if want_props and not (set(o.prop.split(",")) & set(want_props)):
@@ -107,7 +111,11 @@ def run_one(args):
                     try:
                         dv, sv, lv, rv = float(diff[idx]), float(sc[idx]), float(L[idx]), float(R[idx])
                     except (IndexError, TypeError):
-                        dv, sv, lv, rv = float(diff.max()), float(sc.max()), float("nan"), float("nan")
+                        # the native clause has another layout than the symbolic one: the entry that fails most clearly
+                        import numpy as _np
+                        ex = _np.asarray(diff, dtype=float) - core.NATIVE_TOL * (1.0 + _np.asarray(sc, dtype=float))
+                        k = _np.unravel_index(_np.argmax(ex), ex.shape) if ex.shape else ()
+                        dv, sv, lv, rv = float(_np.asarray(diff)[k]), float(_np.asarray(sc)[k]), float("nan"), float("nan")
                     r["native_lhs"] = lv
                     r["native_rhs"] = rv
                     r["native_diff"] = dv
